@@ -32,6 +32,9 @@ func runC08(c *Ctx) {
 	c08R3(c, p)
 	boardCopyRule(c, p, "C08.R4")
 	c08R5(c, p)
+	// "replaying with the node count as a hard budget reproduces the result": what Go returns is decided by the
+	// completed iterations alone, never by the way the search was cut short
+	c.As("C07.R3", "C08.R6.result", func() { c07R3R4(c, p, true) })
 }
 
 // allowed nondeterminism sites inside the closure of Search.Go: function -> kinds
@@ -394,6 +397,9 @@ func isDepthTyped(v ssa.Value) bool {
 
 func init() {
 	addMutants(
+		Mutant{Name: "C08.R6-ponder-cleared-on-every-abort", Prop: "C08", File: "search/search.go", Quick: true,
+			Old: "\t\t\t\tif move == 0 {\n\t\t\t\t\ts.ms.Push()\n\t\t\t\t\tdefer s.ms.Pop()\n\n\t\t\t\t\t// give up on ponder\n\t\t\t\t\tponder = 0\n", New: "\t\t\t\t// give up on ponder\n\t\t\t\tponder = 0\n\t\t\t\tif move == 0 {\n\t\t\t\t\ts.ms.Push()\n\t\t\t\t\tdefer s.ms.Pop()\n\n",
+			Expect: "C08.R6.result/iterativeDeepen#result-of-last-iteration"},
 		Mutant{Name: "C08.R5-soft-time-compared-when-unset", Prop: "C08", File: "search/state.go", Quick: true,
 			Old: "(o.SoftTime > 0 && elapsed > o.SoftTime)", New: "(elapsed > o.SoftTime)",
 			Expect: "C08.R5/softAbort#disabled-limit-inert:SoftTime"},
